@@ -372,8 +372,15 @@ package soyhtml
 // installed is proved panic-free (under the registry invariant that
 // Registry.Add maintains); every panic raised afterwards reaches errRecover,
 // which is proved above to complete and to assign a non-nil error.
+// C19 (and C09): a render works on its own snapshot of the registry - the
+// state holds the Registry by VALUE, copied when the render starts and again
+// for each callee - so the file names and source texts an error position is
+// computed from belong to the same compilation as the nodes being rendered,
+// even if the bundle's development-mode watcher swaps in a new compilation
+// meanwhile.
 //@ func (Renderer).Execute
 //@   props C06 C08 C09
+//@   fieldtype[a-render-keeps-its-own-snapshot-of-the-registry;C19,C09] soyhtml.state.registry github.com/robfig/soy/template.Registry
 //@   modifies *
 //@   preserves F!github.com/robfig/soy/ast.* F!github.com/robfig/soy/template.* E!Iface E!Int E!Str E!|S!github.com/robfig/soy/template.* G!github.com/robfig/soy/* F!github.com/robfig/soy/soyhtml.Tofu!* F!github.com/robfig/soy/soyhtml.Renderer!*
 //@   mapwrites owned
